@@ -705,6 +705,7 @@ type SpecEnv struct {
 	fn      *ssa.Function
 	pkg     *types.Package
 	locals  func(name string) (Val, bool)
+	scope   *ssa.BasicBlock // program point of the clause: only variables declared in dominating blocks are in scope
 	inOld   bool
 	entryParams map[string]Val // entry values of the parameters (what old(p) means; also p itself in pre/postconditions)
 	callSite bool // evaluating a callee's postcondition as an assumption
